@@ -48,6 +48,8 @@ def cases(seed, tier):
     refs = ["any", "pole", "seam", "any", "southpole", "seam0", "far"]
     for i in range(n):
         yield {"family": kinds[i % len(kinds)], "ref": refs[(i // len(kinds)) % len(refs)], "sub": int(rng.integers(0, 2**31))}
+    for i in range(2 if tier == "quick" else 10):
+        yield {"family": "big", "ref": "any", "sub": int(rng.integers(0, 2**31)), "first": i == 0, "cap": 15 * 10 ** 5 if tier == "quick" else None}
 
 
 # ---------------------------------------------------------------------------------------------------------------
@@ -374,7 +376,29 @@ def same(a, b, tol):
     return all(u.shape == v.shape and np.allclose(u, v, rtol=0, atol=tol) for u, v in zip(a, b))
 
 
+def run_big(case):
+    """long pixel / sky arrays: element for element the same as short windows of the same arrays"""
+    from esutil import wcsutil
+    rng = np.random.default_rng(case["sub"])
+    n = gen.big_size(rng, cap=case.get("cap"), first=case.get("first", False))
+    kind = ["tpv", "sip", "tan"][int(rng.integers(0, 3))]
+    h = make_header(rng, kind, "any")
+    w = wcsutil.WCS(dict(h))
+    x, y = rng.uniform(1, h["naxis1"], size=n), rng.uniform(1, h["naxis2"], size=n)
+    win = gen.windows(rng, n)
+    COL.sample({"family": "big", "n": n, "kind": kind}, limit=3)
+    close = lambda a, b: a.shape == b.shape and bool(np.all(np.abs(a - b) <= 1e-12 * (1 + np.abs(b))))   # noqa: E731
+    sky = probe.big_vs_windows("C10.scalar-array", "image2sky", w.image2sky, [x, y], win, same=close, wit={"kind": kind})
+    if sky is not None:
+        lon, lat = np.asarray(sky[0]), np.asarray(sky[1])
+        probe.big_vs_windows("C10.scalar-array", "sky2image(find=False)", lambda a, b: w.sky2image(a, b, find=False), [lon, lat], win,
+                             same=lambda a, b: a.shape == b.shape and bool(np.all(np.abs(a - b) <= 1e-7)), wit={"kind": kind})
+    probe.big_vs_windows("C10.scalar-array", "image2sky(distort=False)", lambda a, b: w.image2sky(a, b, distort=False), [x, y], win, same=close)
+
+
 def run_case(case):
+    if case["family"] == "big":
+        return run_big(case)
     from esutil import wcsutil
     rng = np.random.default_rng(case["sub"])
     fam, ref = case["family"], case["ref"]
